@@ -322,7 +322,7 @@ def attr_options(opts):
 
 def add_bench(m, path, indent, raw_name, form="plain", args=None, types=None, consts=None, consts_expr=None,
               type_first=True, options=None, ignore_attr=False, name=None, extern=None, display_module=None,
-              body="hit", bencher_style=None, cost=1000, pre=None, expect_options=None, const_ty="usize", const_labels_given=None):
+              body="hit", bencher_style=None, cost=1000, pre=None, expect_options=None, const_ty="usize", const_labels_given=None, lifetime=False):
     """Emits one #[divan::bench] function into module `path` (list of module names below the crate root).
     Returns the bench dict."""
     pad = " " * indent
@@ -353,6 +353,8 @@ def add_bench(m, path, indent, raw_name, form="plain", args=None, types=None, co
         generics = ["T: crate::Tag + 'static"]
     elif consts is not None:
         generics = ["const N: %s" % const_ty]
+    if lifetime and generics:
+        generics = ["'a"] + generics
     gen = "<%s>" % ", ".join(generics) if generics else ""
     params = []
     if form == "bencher":
@@ -470,6 +472,10 @@ def family_forms(m, tier):
         dict(raw_name="named_path_like", name="looks::like a path"),
         dict(raw_name="g_types", types=["TA", "TB"]),
         dict(raw_name="g_types_empty", types=[]),
+        dict(raw_name="g_lifetime_tc", types=["TB", "TA"], consts=[3, 1], lifetime=True),
+        dict(raw_name="g_lifetime_ct", types=["TA", "&str"], consts=[2, 5], type_first=False, lifetime=True),
+        dict(raw_name="g_consts_u128", consts=["340282366920938463463374607431768211455", "0", "18446744073709551616"], const_ty="u128"),
+        dict(raw_name="g_consts_i128", consts=["-170141183460469231731687303715884105728", "7", "-1"], const_ty="i128"),
         dict(raw_name="g_types_composite", types=["Vec<zoo::TA>", "TB", "Option<zoo::TB>", "&str", "(u8, zoo::TA)"]),
         dict(raw_name="g_consts", consts=[2, 10, 1]),
         dict(raw_name="g_consts_ext3", consts=[3, 1, 2], consts_expr="crate::CONSTS3"),
